@@ -13,6 +13,7 @@ import M3d.Lemmas.CollideTriTri
 import M3d.Lemmas.CollideSegQuery
 import M3d.Lemmas.CollideProfBall
 import M3d.Lemmas.CollideScale
+import M3d.Lemmas.CollideBVH
 import Mathlib.Algebra.Order.Field.Rat
 /-!
 # C07 — Colliders report consistent ray and ball collisions
@@ -1459,5 +1460,177 @@ example :
     triBallSpec (⟨0, 0, 0⟩ : V3 ℚ) ⟨1, 0, 0⟩ ⟨0, 1, 0⟩ ⟨1/4, 1/4, 1/2⟩ (1/2 * (1/2)) = false ∧
     triBallSpec (⟨0, 0, 0⟩ : V3 ℚ) ⟨1, 0, 0⟩ ⟨0, 1, 0⟩ ⟨2, 2, 0⟩ 1 = false := by
   refine ⟨?_, ?_, ?_⟩ <;> decide +kernel
+
+/-! ## `BVHToCollider` over a `BVH` whose branches have any number of children
+
+`model3d.BVH` / `model2d.BVH` is public and documented as "a leaf, or a branch with two *or more* children".
+`WTree L` (`M3d/Model/CollideBVH.lean`) is the slice `Branch` of such a node; `BVHToCollider` converts every child and
+joins them (`joinedMultiCollider{NewJoinedCollider(other)}`, bounds folded from the left over all children).  The
+theorems say that the collider describes the WHOLE stored surface, whatever the widths of the nodes. -/
+
+/-- **`bvh_ray_collisions`** — `BVHToCollider(b).RayCollisions / FirstRayCollision` for a BVH of any shape and width
+(`wtCollider`: nested `JoinedCollider`s, every child of every branch converted, any ray/bounds tests `admits`):
+* it satisfies the contract of the property for a ray as soon as the stored primitives do (count = callbacks = count
+  without callback, parameters ≥ 0, first exists ⇔ count ≠ 0 and is a callback of minimal parameter);
+* if no bounds test rejects a node holding a primitive the ray hits (soundness of `rayCollisionWithBounds`: `rect_hits`,
+  C08), the callbacks are **the concatenation of the collisions with ALL stored primitives** in the order of the
+  hierarchy and the count is the sum of their counts — with and without a callback.  Together with the first item:
+  `FirstRayCollision` has the smallest parameter over the collisions with all stored primitives. -/
+theorem bvh_ray_collisions {R H L : Type} (tOf : H → K) (admits : WTree L → R → Bool) (leafC : L → Collider R H)
+    (r : R) (t : WTree L) (hl : ∀ l ∈ t.leaves, Contract tOf (leafC l) r) :
+    Contract tOf (wtCollider tOf admits leafC t) r ∧
+    ((∀ n : WTree L, (∀ l ∈ n.leaves, l ∈ t.leaves) → admits n r = false →
+        ∀ l ∈ n.leaves, ∀ cb, (leafC l).ray r cb = (0, [])) →
+      ∀ cb, (wtCollider tOf admits leafC t).ray r cb =
+        ((t.leaves.map fun l => ((leafC l).ray r cb).1).sum, t.leaves.flatMap fun l => ((leafC l).ray r cb).2)) := by
+  refine ⟨joined_contract' tOf (admits t) _ r (wtColliders_contract tOf admits leafC r t hl), ?_⟩
+  intro hadm cb
+  obtain ⟨e1, e2⟩ := wtColliders_ray tOf admits leafC r cb t (fun n hn ha l hl => hadm n hn ha l hl cb)
+  by_cases ha : admits t r = true
+  · show joinedRay _ _ r cb = _
+    rw [joinedRay_eq _ _ r cb ha, e1, e2]
+  · have ha' : admits t r = false := by simpa using ha
+    have hz := fun l hl => hadm t (fun _ h => h) ha' l hl cb
+    have z1 : (t.leaves.map fun l => ((leafC l).ray r cb).1).sum = 0 := by
+      apply List.sum_eq_zero
+      intro x hx
+      obtain ⟨l, hl, rfl⟩ := List.mem_map.1 hx
+      rw [hz l hl]
+    have z2 : (t.leaves.flatMap fun l => ((leafC l).ray r cb).2) = [] := by
+      rw [List.flatMap_eq_nil_iff]; intro l hl; rw [hz l hl]
+    rw [z1, z2]
+    show joinedRay _ _ r cb = _
+    simp [joinedRay, ha']
+
+/-- **`bvh_boolean_query`** — every Boolean query of `BVHToCollider(b)` (`SphereCollision` / `CircleCollision`,
+`SegmentCollision`, `RectCollision`, 2-D and 3-D: the node's bounds test, then ALL children in order) over a BVH of any
+shape and width is the disjunction of the answers of all stored primitives, provided no bounds test rejects a node
+holding a primitive that answers true (`segment_bounds_test_sound`, `rect_bounds_test_iff`, `rect_bounds_test_iff_3d`;
+ball queries: C08). -/
+theorem bvh_boolean_query {L : Type} (gate : WTree L → Bool) (leafQ : L → Bool) (t : WTree L)
+    (hadm : ∀ n : WTree L, (∀ l ∈ n.leaves, l ∈ t.leaves) → ∀ l ∈ n.leaves, leafQ l = true → gate n = true) :
+    wtAny gate leafQ t = true ↔ ∃ l ∈ t.leaves, leafQ l = true :=
+  wtAny_iff gate leafQ t hadm
+
+/-- **`bvh_bounds_contain`** — the bounds `NewJoinedCollider` computes for a branch of any width (left fold of
+`Min`/`Max` over the bounds of all children, each branch child with the bounds of its own join) contain the bounds of
+every primitive stored below the node; hence a bounds test that accepts every box containing the bounds of one of them
+passes (2-D and 3-D). -/
+theorem bvh_bounds_contain {L : Type} :
+    (∀ (leafB : L → Box2 K) (test : Box2 K → Bool) (n : WTree L) (l : L), l ∈ n.leaves →
+      (∀ b, Box2Le b (leafB l) → test b = true) → wtGate leafB box2Join test n = true) ∧
+    (∀ (leafB : L → Box3 K) (test : Box3 K → Bool) (n : WTree L) (l : L), l ∈ n.leaves →
+      (∀ b, Box3Le b (leafB l) → test b = true) → wtGate leafB box3Join test n = true) :=
+  ⟨fun leafB test n l hl ht => wtGate2_of_leaf leafB test n l hl ht,
+   fun leafB test n l hl ht => wtGate3_of_leaf leafB test n l hl ht⟩
+
+/-- **`bvh_rect_touches_iff`** — 2-D `BVHToCollider(b).RectCollision(lo, hi)` for a BVH of any shape and width (the
+bounds and the bounds test of `joinedMultiCollider.RectCollision` at every node) is true **iff some stored segment —
+any of them, not only those below the first two children — has a point in the closed box**.  Hypotheses per segment as
+in `rect_touches_iff_segment2d`. -/
+theorem bvh_rect_touches_iff {sqrtF : K → K} (hs : SqrtOK sqrtF) (eps : K) (heps : 0 < eps) (t : WTree (Seg K))
+    (lo hi : V2 K) (hx : lo.x < hi.x) (hy : lo.y < hi.y)
+    (hnd : ∀ S ∈ t.leaves, (S.2.sub S.1).dot (S.2.sub S.1) ≠ 0)
+    (hnp : ∀ S ∈ t.leaves, ∀ q ∈ rectSides lo hi, segDet S.1 S.2 (q.2.sub q.1) ≠ 0 →
+      ¬ segNearPar sqrtF eps S.1 S.2 (q.2.sub q.1)) :
+    bvhRect2 sqrtF eps t lo hi = true ↔
+      ∃ S ∈ t.leaves, ∃ lam, 0 ≤ lam ∧ lam ≤ 1 ∧ InRect2 lo hi (segPoint2 S.1 S.2 lam) := by
+  unfold bvhRect2
+  rw [wtAny_iff]
+  · constructor
+    · rintro ⟨S, hS, h⟩
+      exact ⟨S, hS, (seg2Rect_iff hs eps heps S.1 S.2 lo hi (hnd S hS) hx hy (hnp S hS)).1 h⟩
+    · rintro ⟨S, hS, h⟩
+      exact ⟨S, hS, (seg2Rect_iff hs eps heps S.1 S.2 lo hi (hnd S hS) hx hy (hnp S hS)).2 h⟩
+  · intro n hn S hS h
+    have hS' := hn S hS
+    obtain ⟨lam, h0, h1, hb⟩ := (seg2Rect_iff hs eps heps S.1 S.2 lo hi (hnd S hS') hx hy (hnp S hS')).1 h
+    apply wtGate2_of_leaf seg2Box _ n S hS
+    intro b hle
+    exact rectOverlap2_of_point lo hi b.1 b.2 _ hb
+      (inRect2_of_box2Le b (seg2Box S) hle _ (segPoint2_in_bounds S.1 S.2 lam h0 h1))
+
+/-- **`bvh_segment_touches_iff`** — 3-D `BVHToCollider(b).SegmentCollision(s0, s1)` over a BVH of any shape and width
+is true **iff some stored triangle answers true** (`segment_touches_iff_triangle`).  No hypotheses. -/
+theorem bvh_segment_touches_iff (sqrtF : K → K) (eps : K) (t : WTree (Tri K)) (s0 s1 : V3 K) :
+    bvhSegment3 sqrtF eps t s0 s1 = true ↔
+      ∃ T ∈ t.leaves, triSegment sqrtF eps T.1 T.2.1 T.2.2 s0 s1 = true := by
+  unfold bvhSegment3
+  apply wtAny_iff
+  intro n _ T hT h
+  obtain ⟨_, _, τ, u, v, he, hu, hv, huv, h0, h1⟩ := (triSegment_iff sqrtF eps T.1 T.2.1 T.2.2 s0 s1).1 h
+  apply wtGate3_of_leaf triBox _ n T hT
+  intro b hle
+  apply segAdmits_of_point _ τ h0 h1
+  rw [axes3_in]
+  have hP : InTri T (s0.along (s1.sub s0) τ) := ⟨u, v, hu, hv, huv, (triEq_iff_point _ _ _ _ _ _ _ _).1 he⟩
+  exact inBox_of_box3Le b (triBox T) hle _ (inTri_in_bounds T _ hP)
+
+/-- **`bvh_segment_touches_iff_2d`** — the same for 2-D `BVHToCollider(b).SegmentCollision(q)`
+(`segment_touches_iff_segment2d`). -/
+theorem bvh_segment_touches_iff_2d {sqrtF : K → K} (hs : SqrtOK sqrtF) (eps : K) (heps : 0 < eps)
+    (t : WTree (Seg K)) (q0 q1 : V2 K) (hq : (q1.sub q0).dot (q1.sub q0) ≠ 0)
+    (hnd : ∀ S ∈ t.leaves, (S.2.sub S.1).dot (S.2.sub S.1) ≠ 0) :
+    bvhSegment2 sqrtF eps t q0 q1 = true ↔ ∃ S ∈ t.leaves, seg2Segment sqrtF eps S.1 S.2 q0 q1 = true := by
+  unfold bvhSegment2
+  apply wtAny_iff
+  intro n hn S hS h
+  obtain ⟨_, _, τ, a, he, ha0, ha1, h0, h1⟩ :=
+    (seg2Segment_iff hs eps heps S.1 S.2 q0 q1 (hnd S (hn S hS)) hq).1 h
+  apply wtGate2_of_leaf seg2Box _ n S hS
+  intro b hle
+  apply segAdmits_of_point _ τ h0 h1
+  rw [axes2_in]
+  have hpt : q0.along (q1.sub q0) τ = segPoint2 S.1 S.2 a := by
+    obtain ⟨e1, e2⟩ := he
+    simp only [V2.along, segPoint2, V2.add, V2.scale, V2.sub, V2.mk.injEq] at e1 e2 ⊢
+    exact ⟨e1.symm, e2.symm⟩
+  rw [hpt]
+  exact inRect2_of_box2Le b (seg2Box S) hle _ (segPoint2_in_bounds S.1 S.2 a ha0 ha1)
+
+/-- **`bvh_triangle_collisions`** — 3-D `BVHToCollider(b).TriangleCollisions(q)` over a BVH of any shape and width
+returns **the concatenation of what ALL stored triangles return**, in the order of the hierarchy. -/
+theorem bvh_triangle_collisions {sqrtF : K → K} (hs : SqrtOK sqrtF) (eps : K) (heps : 0 < eps)
+    (t : WTree (Tri K)) (q : Tri K) :
+    bvhTriTri sqrtF eps t q = t.leaves.flatMap (fun T => (triTri sqrtF eps T q).toList) := by
+  unfold bvhTriTri
+  apply wtList_eq
+  intro n _ T hT hne
+  apply wtGate3_of_leaf triBox _ n T hT
+  intro b hle
+  cases hq : triTri sqrtF eps T q with
+  | none => rw [hq] at hne; exact absurd rfl hne
+  | some s =>
+    have hnp := triTri_some_common hs eps heps T q s hq
+    obtain ⟨_, _, _, _, p1, p2, hc, _⟩ := (triTri_cases sqrtF eps T q).1 s hq
+    have hcom := (triTriCore_some T.1 T.2.1 T.2.2 q.1 q.2.1 q.2.2 hnp p1 p2 hc p1).2
+      ⟨0, le_rfl, zero_le_one, by simp [V3.add, V3.scale]⟩
+    exact boxOverlap3_of_point (triMin q) (triMax q) b.1 b.2 p1 (inTri_in_bounds q p1 hcom.2)
+      (inBox_of_box3Le b (triBox T) hle _ (inTri_in_bounds T p1 hcom.1))
+
+/-- non-vacuity, and what the seeded change C07-14 breaks: the four sides of the rectangle `[0,4] × [0,2]` as the four
+children of ONE branch.  A small box across the third child (the top side) touches the outline, a segment across the
+fourth child (the left side) crosses it — the collider of the whole BVH says so; a conversion that keeps only
+`Branch[0]` and `Branch[1]` (`WTree.firstTwo`) answers "not touching" twice. -/
+example :
+    let sides : WTree (V2 ℚ × V2 ℚ) :=
+      .leafCons (⟨0, 0⟩, ⟨4, 0⟩) (.leafCons (⟨4, 0⟩, ⟨4, 2⟩) (.leafCons (⟨4, 2⟩, ⟨0, 2⟩) (.leafCons (⟨0, 2⟩, ⟨0, 0⟩) .nil)))
+    sides.width = 4 ∧ sides.leaves.length = 4 ∧ sides.firstTwo.leaves.length = 2 ∧
+    bvhRect2 (fun x => x) (1/100000000) sides ⟨1, 3/2⟩ ⟨2, 5/2⟩ = true ∧
+    bvhRect2 (fun x => x) (1/100000000) sides.firstTwo ⟨1, 3/2⟩ ⟨2, 5/2⟩ = false ∧
+    bvhSegment2 (fun x => x) (1/100000000) sides ⟨-1, 1⟩ ⟨1, 1⟩ = true ∧
+    bvhSegment2 (fun x => x) (1/100000000) sides.firstTwo ⟨-1, 1⟩ ⟨1, 1⟩ = false := by
+  refine ⟨?_, ?_, ?_, ?_, ?_, ?_, ?_⟩ <;> decide +kernel
+
+/-- non-vacuity in 3-D: two triangles of the plane `z = 0` in a branch child, two of the plane `z = 1` as the third and
+fourth child of the root (widths 3 and 2): a vertical segment through `z = 1` only is found, and only in the whole BVH. -/
+example :
+    let t : WTree (Tri3 ℚ) :=
+      .nodeCons (.leafCons (⟨0, 0, 0⟩, ⟨1, 0, 0⟩, ⟨0, 1, 0⟩) (.leafCons (⟨1, 1, 0⟩, ⟨0, 1, 0⟩, ⟨1, 0, 0⟩) .nil))
+        (.leafCons (⟨0, 0, 1⟩, ⟨1, 0, 1⟩, ⟨0, 1, 1⟩) (.leafCons (⟨1, 1, 1⟩, ⟨0, 1, 1⟩, ⟨1, 0, 1⟩) .nil))
+    t.width = 3 ∧ t.maxWidth = 3 ∧ t.leaves.length = 4 ∧ t.firstTwo.leaves.length = 3 ∧
+    bvhSegment3 (fun x => x) (1/100000000) t ⟨3/4, 3/4, 1/2⟩ ⟨3/4, 3/4, 3/2⟩ = true ∧
+    bvhSegment3 (fun x => x) (1/100000000) t.firstTwo ⟨3/4, 3/4, 1/2⟩ ⟨3/4, 3/4, 3/2⟩ = false := by
+  refine ⟨?_, ?_, ?_, ?_, ?_, ?_⟩ <;> decide +kernel
 
 end M3d.C07
